@@ -128,6 +128,14 @@ impl FdtReceiver {
         }
     }
 
+    /// Check if no packet has been received for this FDT since `timeout`
+    pub fn is_timeout(&self, now: std::time::Instant, timeout: &std::time::Duration) -> bool {
+        self.obj
+            .as_ref()
+            .map(|obj| obj.last_activity_duration_since(now).gt(timeout))
+            .unwrap_or(false)
+    }
+
     pub fn get_server_time(&self, now: std::time::SystemTime) -> std::time::SystemTime {
         if let Some(offset) = self.sender_current_time_offset {
             if self.sender_current_time_late {
